@@ -444,7 +444,13 @@ def merge(m1, m2, **kargs):
                 v2 = vec([m2[mem(l, v1.size, seg, disp)] for l in loc.base.l])
                 v2 = v2.simplify(**kargs)
             else:
-                v2 = m2[mem(loc, v1.size)]
+                # read both sides through their memory: a recorded entry
+                # may have been partly overwritten since, and m2 may have
+                # written more bytes at loc than m1 did
+                v2 = m2.R(loc)
+                size = max(v1.size, v2.size) if m2.has(loc) else v1.size
+                v1 = m1[mem(loc, size)]
+                v2 = m2[mem(loc, size)]
         else:
             if loc._is_reg and (loc.etype & regtype.FLAGS):
                 v2 = top(loc.size)
@@ -466,6 +472,7 @@ def merge(m1, m2, **kargs):
                 v1 = v1.simplify(**kargs)
             else:
                 v1 = m1[mem(loc, v2.size)]
+                v2 = m2[mem(loc, v2.size)]
         else:
             if loc._is_reg and (loc.etype & regtype.FLAGS):
                 v1 = top(loc.size)
